@@ -157,6 +157,49 @@ fn to_ast(v: &Value) -> Ast {
     }
 }
 
+/// A value of the serde data model, described in JSON by the harness: ["u8", 7] / ["struct", "S", [["x", [...]], ...]] ...
+struct DM(Value);
+fn leak(s: &str) -> &'static str { Box::leak(s.to_string().into_boxed_str()) }
+impl serde::Serialize for DM {
+    fn serialize<S: serde::Serializer>(&self, ser: S) -> Result<S::Ok, S::Error> {
+        use serde::ser::*;
+        let v = &self.0; let k = v[0].as_str().unwrap();
+        let int = |x: &Value| -> i128 { x.as_str().map(|s| s.parse::<i128>().unwrap()).unwrap_or_else(|| x.as_i64().map(|n| n as i128).unwrap_or_else(|| x.as_u64().unwrap() as i128)) };
+        match k {
+            "u8" => ser.serialize_u8(int(&v[1]) as u8), "u16" => ser.serialize_u16(int(&v[1]) as u16), "u32" => ser.serialize_u32(int(&v[1]) as u32), "u64" => ser.serialize_u64(int(&v[1]) as u64),
+            "i8" => ser.serialize_i8(int(&v[1]) as i8), "i16" => ser.serialize_i16(int(&v[1]) as i16), "i32" => ser.serialize_i32(int(&v[1]) as i32), "i64" => ser.serialize_i64(int(&v[1]) as i64),
+            "f64" => ser.serialize_f64(f64::from_bits(u64::from_str_radix(v[1].as_str().unwrap(), 16).unwrap())),
+            "f32" => ser.serialize_f32(f64::from_bits(u64::from_str_radix(v[1].as_str().unwrap(), 16).unwrap()) as f32),
+            "bool" => ser.serialize_bool(v[1].as_bool().unwrap()),
+            "char" => ser.serialize_char(std::char::from_u32(v[1].as_u64().unwrap() as u32).unwrap()),
+            "str" => ser.serialize_str(v[1].as_str().unwrap()),
+            "bytes" => ser.serialize_bytes(&v[1].as_array().unwrap().iter().map(|b| b.as_u64().unwrap() as u8).collect::<Vec<u8>>()),
+            "unit" => ser.serialize_unit(), "none" => ser.serialize_none(),
+            "some" => ser.serialize_some(&DM(v[1].clone())),
+            "unit_struct" => ser.serialize_unit_struct(leak(v[1].as_str().unwrap())),
+            "unit_variant" => ser.serialize_unit_variant(leak(v[1].as_str().unwrap()), v[2].as_u64().unwrap() as u32, leak(v[3].as_str().unwrap())),
+            "newtype_struct" => ser.serialize_newtype_struct(leak(v[1].as_str().unwrap()), &DM(v[2].clone())),
+            "newtype_variant" => ser.serialize_newtype_variant(leak(v[1].as_str().unwrap()), v[2].as_u64().unwrap() as u32, leak(v[3].as_str().unwrap()), &DM(v[4].clone())),
+            "seq" => { let items = v[1].as_array().unwrap(); let mut st = ser.serialize_seq(Some(items.len()))?; for i in items { st.serialize_element(&DM(i.clone()))?; } st.end() }
+            "tuple" => { let items = v[1].as_array().unwrap(); let mut st = ser.serialize_tuple(items.len())?; for i in items { st.serialize_element(&DM(i.clone()))?; } st.end() }
+            "tuple_struct" => { let items = v[2].as_array().unwrap(); let mut st = ser.serialize_tuple_struct(leak(v[1].as_str().unwrap()), items.len())?; for i in items { st.serialize_field(&DM(i.clone()))?; } st.end() }
+            "tuple_variant" => { let items = v[4].as_array().unwrap(); let mut st = ser.serialize_tuple_variant(leak(v[1].as_str().unwrap()), v[2].as_u64().unwrap() as u32, leak(v[3].as_str().unwrap()), items.len())?; for i in items { st.serialize_field(&DM(i.clone()))?; } st.end() }
+            "map" => { let items = v[1].as_array().unwrap(); let mut st = ser.serialize_map(Some(items.len()))?; for kv in items { st.serialize_key(&DM(kv[0].clone()))?; st.serialize_value(&DM(kv[1].clone()))?; } st.end() }
+            "struct" => { let items = v[2].as_array().unwrap(); let mut st = ser.serialize_struct(leak(v[1].as_str().unwrap()), items.len())?; for kv in items { st.serialize_field(leak(kv[0].as_str().unwrap()), &DM(kv[1].clone()))?; } st.end() }
+            "struct_variant" => { let items = v[4].as_array().unwrap(); let mut st = ser.serialize_struct_variant(leak(v[1].as_str().unwrap()), v[2].as_u64().unwrap() as u32, leak(v[3].as_str().unwrap()), items.len())?; for kv in items { st.serialize_field(leak(kv[0].as_str().unwrap()), &DM(kv[1].clone()))?; } st.end() }
+            _ => Err(S::Error::custom("unknown data model kind")),
+        }
+    }
+}
+fn value_tagged(v: &Value) -> Value {
+    match v {
+        Value::Number(n) => { if let Some(u) = n.as_u64() { json!({"$u": u.to_string()}) } else if let Some(i) = n.as_i64() { json!({"$i": i.to_string()}) } else { json!({"$f": format!("{:016x}", n.as_f64().unwrap().to_bits())}) } }
+        Value::Array(a) => Value::Array(a.iter().map(value_tagged).collect()),
+        Value::Object(o) => Value::Object(o.iter().map(|(k, x)| (k.clone(), value_tagged(x))).collect()),
+        x => x.clone(),
+    }
+}
+
 fn arg_type(s: &str) -> ArgumentType {
     match s {
         "any" => ArgumentType::Any,
@@ -203,6 +246,14 @@ fn handle(req: &Value) -> Value {
                 (Err(x), Err(y)) => json!({"kind": "ok", "equal": reason_kind(&x.reason) == reason_kind(&y.reason)}),
                 (x, y) => json!({"kind": "ok", "equal": false, "whole_ok": x.is_ok(), "parts_ok": y.is_ok()}),
             }
+        }
+        "serde" => {
+            // a value of the serde data model searched through the library vs its serde_json image
+            let dm = DM(req["value"].clone());
+            let a = Variable::from_serializable(&dm);
+            let b = serde_json::to_value(&dm);
+            json!({"kind": "ok", "library": a.map(|v| from_var(&v)).map_err(|e| format!("{}", e)).unwrap_or_else(|e| json!({"$error": e})),
+                   "serde_json": b.map(|v| value_tagged(&v)).unwrap_or_else(|e| json!({"$error": format!("{}", e)}))})
         }
         "from_json" => match Variable::from_json(req["text"].as_str().unwrap()) {
             Ok(v) => json!({"kind": "ok", "value": from_var(&v)}),
